@@ -24,7 +24,7 @@ func registry() *kernel.Registry {
 		MinProbes:   map[string][]string{},
 		UnstableSUT: map[string]int{"C14": 8},
 		Weights: map[string]map[string]int{
-			"C14": {"xr": 8}, "C01": {"xr": 5}, "C13": {"xr": 3}, "C19": {"xr": 2},
+			"C14": {"xr": 8}, "C01": {"xr": 5}, "C13": {"xr": 3}, "C19": {"xr": 2}, "C17": {"ag": 3},
 		},
 	}
 	reg.Components["xr"] = [2][]string{
@@ -39,6 +39,8 @@ func registry() *kernel.Registry {
 	xr.Register(reg)
 	lc.Register(reg)
 	ag.Register(reg)
+	// the staking system contract driven by the call data of a received packet (C17's atomicity clause)
+	reg.Serves["C17"] = append(reg.Serves["C17"], "xr")
 	return reg
 }
 
